@@ -66,6 +66,10 @@ def gen_case(rng, tier):
         for s in rng.sample(range(nservers), rng.choice([1, 1, 2]) if nservers > 2 else 1):
             servers[s] = {"kind": rng.choice(["raise-nth", "raise-nth", "disconnect-nth", "error-after"]),
                           "method": rng.choice(["write", "close"]), "nth": rng.choice([1, 1, 2, 3])}
+    elif mode < .29:
+        # nobody to upload to: every server refuses uploads or is gone
+        for s in range(nservers):
+            servers[s] = rng.choice([{"kind": "not-permitted"}, {"kind": "dead", "zombie": False}])
     n_ok = sum(1 for sp in servers if sp["kind"] == "ok")
     n_push = sum(1 for sp in servers if sp["kind"] in ("ok", "raise-nth", "disconnect-nth", "error-after", "slow"))
     happy = rng.choice([1, k, n_ok - 1, n_ok, n_ok, n_ok + 1, n_push, n_push - 1, nservers, n, n + 1])
@@ -148,6 +152,10 @@ def run(ck):
         while not ck.out_of_time():
             i += 1
             if not ck.mine(i):
+                continue
+            if os.environ.get("VF_CASE") and i != int(os.environ["VF_CASE"]):
+                if i > int(os.environ["VF_CASE"]):
+                    break
                 continue
             rng = ck.rng("case", i)
             case = gen_case(rng, ck.tier)
@@ -246,6 +254,7 @@ def one_case(ck, rng, case, layout, orig_defaults):
             layout.WriteBucketProxy.__init__.__defaults__ = (case["batch"],)
 
         before = disk_state(g, si, ref)
+        incoming_before = {p for vs in g.servers for p in vs.incoming_files()}
         c = g.make_client(k=k, happy=happy, n=n, max_segment_size=case["segsize"])
         st, res = g.wait(c.upload(imm.FixedKeyData(data, key)), horizon=3 * 3600.0)
         # quiescence: everything runnable, then let late answers / short timers run, then settle again
@@ -253,7 +262,7 @@ def one_case(ck, rng, case, layout, orig_defaults):
         g.sched.run(horizon=45.0)
         g.sched.settle()
         after = disk_state(g, si, ref)
-        incoming_left = sum(1 for vs in g.servers for p in vs.incoming_files())
+        incoming_left = sum(1 for vs in g.servers for p in vs.incoming_files() if p not in incoming_before)
 
         calls = g.calls
         n_write = sum(1 for r in calls if r["method"] in ("write", "close"))
@@ -339,6 +348,11 @@ def one_case(ck, rng, case, layout, orig_defaults):
                 ck.hit("err:" + res.type.__name__)
             else:
                 ck.observe("failed-with-other-error:" + res.type.__name__)
+                if "other_error_sample" not in ck.extra:
+                    ck.extra["other_error_sample"] = dict(case=repr(case)[:1500], error=_f(res),
+                                                          traceback=res.getTraceback()[-1200:])
+                if os.environ.get("VF_CASE"):
+                    print(case, res.getTraceback())
                 if impossible:
                     ck.violation("unmeetable-threshold-reported-as-other-error",
                                  "happy=%d cannot be met (N=%d, %d servers offered) but the upload failed with %s "
@@ -373,7 +387,9 @@ def one_case(ck, rng, case, layout, orig_defaults):
         if changed_pre:
             ck.observe("preexisting-share-changed-or-removed")
         if incoming_left:
-            ck.observe("incoming-leftovers-after-quiescence", incoming_left)
+            # not visible to readers (no verdict); they block re-uploads of that share to that server for 30 minutes
+            ck.observe("incoming-leftovers-after-%s" % {"ok": "successful-upload", "err": "failed-upload"}.get(
+                st, "unfinished-upload"), incoming_left)
         ck.observe("eventual-exceptions", len(env.evq.exceptions))
         ck.case(cls, key=repr(case), nontrivial=nontrivial,
                 sample=dict(k=k, n=n, happy=happy, nservers=nservers, servers=specs, status=st,
